@@ -156,8 +156,8 @@ func Universe(level int) (*Schema, *Helpers) {
 		ctxPlain(x)
 		ctxSurround(x)
 		if x.Kind == KStruct && x.Def == h.Empty {
-			// a user-declared empty struct under a field mask is accepted by the generator but its Go code does not
-			// compile (C14 finding); kept out of the universe so that the other checks can build it.
+			// these contexts are appended at the very end of the universe (see below): the generated code for a
+			// user-declared empty struct under a field mask did not compile before /repo 4e7f9d5b
 			continue
 		}
 		ctxMask(x, 0)
@@ -229,5 +229,9 @@ func Universe(level int) (*Schema, *Helpers) {
 		Vec(Ref(vs)), Maybe(Vec(TString)), Tup(Vec(TInt), Const(3)), Dict(Dict(TString))} {
 		place(x, false, false)
 	}
+	// user-declared empty struct under local / outer field masks (did not compile before /repo 4e7f9d5b)
+	ctxMask(Ref(h.Empty), 0)
+	ctxMask(Ref(h.Empty), 31)
+	ctxOuter(Ref(h.Empty))
 	return b.S, h
 }
